@@ -163,6 +163,10 @@ def install(ex):
         if re.match(r"^((core|alloc)::)?slice::<impl \[.*\]>::(sort|sort_unstable)$", c):
             l = lst_of(a[0]); l.sort(key=functools.cmp_to_key(cmp_val)); return TupleV([])
         if re.match(r"^core::slice::<impl \[.*\]>::reverse$", c): lst_of(a[0]).reverse(); return TupleV([])
+        if re.match(r"^core::slice::<impl \[.*\]>::split_last$", c):
+            l = lst_of(a[0]); return opt(TupleV([Ref(l, len(l) - 1), l[:-1]])) if l else opt()
+        if re.match(r"^core::slice::<impl \[.*\]>::(split_at)$", c):
+            l = lst_of(a[0]); return TupleV([l[:a[1]], l[a[1]:]])
         if re.match(r"^core::slice::<impl \[.*\]>::split_first$", c):
             l = lst_of(a[0]); return opt(TupleV([Ref(l, 0), l[1:]])) if l else opt()
         if re.match(r"^<Vec<.*> as (IntoIterator)>::into_iter$", c): return mk_iter(list(lst_of(a[0])))
